@@ -31,6 +31,7 @@ func init() {
 			"R6 numeral agreement (siblings): every strconv conversion of the stored text of a number token (list index, each map-key kind) reads it in the same base, so one spelling denotes one number whatever the step kind. " +
 			"R7 parse width: the bit size given to strconv.ParseInt/ParseUint for a number literal (a constant, or a small helper evaluated for the key kind of the enclosing switch arm) is not larger than the integer type the result is converted to, so out-of-range literals are refused rather than truncated. " +
 			"R8 cursor kind (ESP on the evaluator): Value.List() only after IsList() was true, Value.Map() only after IsMap() was true, Value.Message() only where the descriptor cursor is not a field descriptor or is a field known to be neither list nor map — these conversions panic on a mismatch. " +
+			"R9 every protoreflect.Value produced in the evaluator's region is read out of the message walked (Message/List/Map.Get, MapKey.Value, ValueOf*), never a descriptor's Default() or a mutating accessor. " +
 			"Not covered: value equality with a field-by-field walk, panics inside protoreflect for ill-typed hand-built paths, scanner progress (regular-expression reasoning), agreement of parser and evaluator descriptor transfers beyond R1.",
 		Assumptions: []string{"go/types, go/ssa", "protoreflect accessors"},
 		Run:         runC19,
@@ -74,6 +75,47 @@ func runC19(c *Ctx) {
 		}
 	}
 	c.S.Floor("R1", "path evaluators in parsepath", 1, len(evals))
+	// ---- R9: where the evaluator's values come from ----
+	// Every protoreflect.Value produced in the evaluator's region is read out of the message being walked
+	// (Message.Get, List.Get, Map.Get, MapKey.Value) or wraps it (protoreflect.ValueOf*). A descriptor's Default(),
+	// NewField / Mutable and the like are no readings of the message: Default() is the invalid Value for message, list
+	// and map fields, so the next step panics inside protoreflect, and Mutable writes the message.
+	for _, ev := range evals {
+		nProd := 0
+		for _, g := range unexportedRegion(ev) {
+			for _, call := range callsIn(g, func(call ssa.CallInstruction) bool {
+				v := call.Value()
+				return v != nil && namedIs(v.Type(), protoreflectPkg, "Value")
+			}) {
+				nProd++
+				name, recv := "", ""
+				if call.Common().IsInvoke() {
+					name = call.Common().Method.Name()
+					recv = types.TypeString(call.Common().Value.Type(), func(p *types.Package) string { return p.Name() })
+				} else if cal := call.Common().StaticCallee(); cal != nil {
+					name = cal.Name()
+					if cal.Signature.Recv() != nil {
+						recv = types.TypeString(cal.Signature.Recv().Type(), func(p *types.Package) string { return p.Name() })
+					} else if cal.Pkg != nil {
+						recv = cal.Pkg.Pkg.Name()
+					}
+				}
+				ok := false
+				switch {
+				case name == "Get" && (strings.HasSuffix(recv, "protoreflect.Message") || strings.HasSuffix(recv, "protoreflect.List") || strings.HasSuffix(recv, "protoreflect.Map")):
+					ok = true
+				case name == "Value" && strings.HasSuffix(recv, "protoreflect.MapKey"):
+					ok = true
+				case strings.HasPrefix(name, "ValueOf") && recv == "protoreflect":
+					ok = true
+				case call.Common().StaticCallee() != nil && load.FuncInRepo(call.Common().StaticCallee()):
+					ok = true // a helper of the evaluator: its own producers are examined in the region
+				}
+				c.S.Check(ok, "R9", load.FuncName(ev)+":value from "+recv+"."+name, c.pos(call.Pos()), "the value is read out of the message walked", "the evaluator takes a value from "+recv+"."+name+", which does not read the message walked (a descriptor's default is the invalid value for message, list and map fields: the next step panics in protoreflect)")
+			}
+		}
+		c.S.Floor("R9", "value producers in "+load.FuncName(ev), 3, nProd)
+	}
 	for _, ev := range evals {
 		name := load.FuncName(ev)
 		loops := naturalLoops(ev)
